@@ -381,3 +381,674 @@ pub fn run_c09(toks: &[&str]) -> Lines {
     out.push(("orc", if why.is_empty() { "ok".to_string() } else { format!("FAIL {}", why.join(",")) }));
     out
 }
+
+// ---------------------------------------------------------------------------------------------
+// C05: dedup answers are truthful.
+use mdb_shard::ShardFileManager;
+
+// truthfulness of one answer against a set of recorded xorbs, under key (zero = unkeyed)
+pub fn truthful(cass: &[MDBCASInfo], key: &MerkleHash, qs: &[MerkleHash], ans: &Option<(usize, FileDataSequenceEntry)>) -> Result<(), String> {
+    let Some((n, s)) = ans else { return Ok(()) };
+    if *n == 0 {
+        // an empty run claims nothing; the in-memory index can return it (start past a block end)
+        return Ok(());
+    }
+    if *n > qs.len() {
+        return Err(format!("n={}>queries={}", n, qs.len()));
+    }
+    let zero = MerkleHash::default();
+    let cands: Vec<&MDBCASInfo> = cass.iter().filter(|c| c.metadata.cas_hash == s.cas_hash).collect();
+    if cands.is_empty() {
+        return Err("xorb-not-recorded".into());
+    }
+    let mut last = String::new();
+    for c in cands {
+        let a = s.chunk_index_start as usize;
+        let e = s.chunk_index_end as usize;
+        if e != a + n || e > c.chunks.len() {
+            last = format!("range[{},{})-vs-n={}-len={}", a, e, n, c.chunks.len());
+            continue;
+        }
+        let mut ok = true;
+        let mut bytes: u64 = 0;
+        for i in 0..*n {
+            let want = if *key == zero { qs[i] } else { qs[i].hmac(*key) };
+            if c.chunks[a + i].chunk_hash != want {
+                ok = false;
+                last = format!("hash-mismatch-at-{}", i);
+                break;
+            }
+            bytes += c.chunks[a + i].unpacked_segment_bytes as u64;
+        }
+        if ok && bytes as u32 != s.unpacked_segment_bytes {
+            ok = false;
+            last = format!("bytes-{}-vs-{}", s.unpacked_segment_bytes, bytes);
+        }
+        if ok {
+            return Ok(());
+        }
+    }
+    Err(last)
+}
+
+fn keyed_cass(cass: &[MDBCASInfo], key: &MerkleHash) -> Vec<MDBCASInfo> {
+    let zero = MerkleHash::default();
+    cass.iter()
+        .map(|c| {
+            let mut c = c.clone();
+            if *key != zero {
+                for ch in c.chunks.iter_mut() {
+                    ch.chunk_hash = ch.chunk_hash.hmac(*key);
+                }
+            }
+            c
+        })
+        .collect()
+}
+
+// ops: F.. / C.. build one shard; `key <hex>` re-exports it under that key (all tables); `qd h,h,..` queries.
+pub fn run_c05(toks: &[&str]) -> Lines {
+    let ops = split_ops(toks);
+    let b = build(&ops);
+    let mut out: Lines = vec![];
+    let mut why: Vec<String> = vec![];
+    let (bytes, info) = serialize(&b.mem);
+    let zero = MerkleHash::default();
+    let mut key = zero;
+    let mut kbytes: Vec<u8> = vec![];
+    let mut kinfo = None;
+    for op in &ops {
+        if op[0] == "key" {
+            key = h32(op[1]);
+            let mut rd = Cursor::new(&bytes);
+            let mut w = vec![];
+            info.export_as_keyed_shard(&mut rd, &mut w, key, std::time::Duration::from_secs(3600), true, true, true).unwrap();
+            let mut r2 = Cursor::new(&w);
+            kinfo = Some(MDBShardInfo::load_from_reader(&mut r2).unwrap());
+            kbytes = w;
+        }
+    }
+    let kc = keyed_cass(&b.cass, &key);
+    let mut nq = 0;
+    for op in &ops {
+        if op[0] != "qd" {
+            continue;
+        }
+        let qs = hashes(op[1]);
+        // in-memory index
+        let m = b.mem.chunk_hash_dedup_query(&qs);
+        out.push(("obs", format!("qd{} mem {}", nq, dump_seg(&m))));
+        if let Err(e) = truthful(&b.cass, &zero, &qs, &m) {
+            why.push(format!("qd{}-mem-untruthful:{}", nq, e));
+        }
+        // on-disk, unkeyed
+        let mut rd = Cursor::new(&bytes);
+        match info.chunk_hash_dedup_query(&mut rd, &qs) {
+            Ok(d) => {
+                out.push(("obs", format!("qd{} disk {}", nq, dump_seg(&d))));
+                if let Err(e) = truthful(&b.cass, &zero, &qs, &d) {
+                    why.push(format!("qd{}-disk-untruthful:{}", nq, e));
+                }
+                if matches!(d, Some((0, _))) {
+                    why.push(format!("qd{}-disk-empty-run", nq));
+                }
+            },
+            Err(_) => out.push(("obs", format!("qd{} disk error", nq))),
+        }
+        // on-disk, keyed export (queries stay unkeyed)
+        if let Some(ki) = &kinfo {
+            let mut rd = Cursor::new(&kbytes);
+            match ki.chunk_hash_dedup_query(&mut rd, &qs) {
+                Ok(d) => {
+                    out.push(("obs", format!("qd{} keyed {}", nq, dump_seg(&d))));
+                    if let Err(e) = truthful(&kc, &key, &qs, &d) {
+                        why.push(format!("qd{}-keyed-untruthful:{}", nq, e));
+                    }
+                },
+                Err(_) => out.push(("obs", format!("qd{} keyed error", nq))),
+            }
+        }
+        nq += 1;
+    }
+    out.push(("orc", if why.is_empty() { "ok".to_string() } else { format!("FAIL {}", why.join(",")) }));
+    out
+}
+
+// C05 manager stream: a history of add / flush / reg (re-open) / keyed (export every shard under a key into the
+// directory) / consolidate steps against a real ShardFileManager, with queries in between; oracle only.
+pub fn run_c05m(toks: &[&str]) -> Lines {
+    let ops = split_ops(toks);
+    let rt = tokio::runtime::Builder::new_multi_thread().worker_threads(2).enable_all().build().unwrap();
+    let dir = tempfile::tempdir().unwrap();
+    let mut out: Lines = vec![];
+    let mut why: Vec<String> = vec![];
+    rt.block_on(async {
+        let path = dir.path().to_path_buf();
+        let mut mgr = ShardFileManager::new_in_session_directory(&path).await.unwrap();
+        let mut all: Vec<MDBCASInfo> = vec![];
+        let mut keys: Vec<MerkleHash> = vec![MerkleHash::default()];
+        let mut nq = 0;
+        for op in &ops {
+            match op[0] {
+                "C" => {
+                    let c = parse_cas(op);
+                    all.push(c.clone());
+                    mgr.add_cas_block(c).await.unwrap();
+                },
+                "F" => {
+                    mgr.add_file_reconstruction_info(parse_file(op)).await.unwrap();
+                },
+                "flush" => {
+                    mgr.flush().await.unwrap();
+                },
+                "keyed" => {
+                    // export every on-disk shard under the key into the same directory, then register them
+                    let key = h32(op[1]);
+                    keys.push(key);
+                    mgr.flush().await.unwrap();
+                    let shards = mgr.registered_shard_list().await.unwrap();
+                    let mut new_paths = vec![];
+                    for s in shards {
+                        if s.shard.metadata.chunk_hash_hmac_key != MerkleHash::default() {
+                            continue;
+                        }
+                        let flags: u32 = op[2].parse().unwrap();
+                        let ks = s
+                            .export_as_keyed_shard(&path, key, std::time::Duration::from_secs(3600), flags & 1 != 0, flags & 2 != 0, flags & 4 != 0)
+                            .unwrap();
+                        new_paths.push(ks.path.clone());
+                        if op.len() > 3 && op[3] == "drop" {
+                            std::fs::remove_file(&s.path).unwrap();
+                        }
+                    }
+                    mgr.register_shards_by_path(&new_paths).await.unwrap();
+                },
+                "reopen" => {
+                    mgr.flush().await.unwrap();
+                    drop(mgr);
+                    mgr = ShardFileManager::new_in_session_directory(&path).await.unwrap();
+                    mgr.refresh_shard_dir().await.unwrap();
+                },
+                "consolidate" => {
+                    mgr.flush().await.unwrap();
+                    let t: u64 = op[1].parse().unwrap();
+                    let _ = mdb_shard::session_directory::consolidate_shards_in_directory(&path, t).unwrap();
+                    drop(mgr);
+                    mgr = ShardFileManager::new_in_session_directory(&path).await.unwrap();
+                    mgr.refresh_shard_dir().await.unwrap();
+                },
+                "qd" => {
+                    let qs = hashes(op[1]);
+                    match mgr.chunk_hash_dedup_query(&qs).await {
+                        Ok(ans) => {
+                            out.push(("obs", format!("qd{} {}", nq, if ans.is_some() { "hit" } else { "miss" })));
+                            // truthful under at least one of the keys in play (the answer does not say which collection)
+                            let mut okk = false;
+                            let mut last = String::new();
+                            for k in &keys {
+                                match truthful(&keyed_cass(&all, k), k, &qs, &ans) {
+                                    Ok(()) => {
+                                        okk = true;
+                                        break;
+                                    },
+                                    Err(e) => last = e,
+                                }
+                            }
+                            if !okk {
+                                why.push(format!("qd{}-untruthful:{}", nq, last));
+                            }
+                        },
+                        Err(e) => out.push(("obs", format!("qd{} error {:?}", nq, e))),
+                    }
+                    nq += 1;
+                },
+                _ => {},
+            }
+        }
+    });
+    out.push(("orc", if why.is_empty() { "ok".to_string() } else { format!("FAIL {}", why.join(",")) }));
+    out
+}
+
+// ---------------------------------------------------------------------------------------------
+// C10: union / difference (on-disk walks and in-memory) and directory consolidation.
+use mdb_shard::set_operations::{shard_set_difference, shard_set_union};
+
+fn split_ab<'a>(ops: &[Vec<&'a str>]) -> (Vec<Vec<&'a str>>, Vec<Vec<&'a str>>) {
+    let mut a = vec![];
+    let mut b = vec![];
+    let mut second = false;
+    for op in ops {
+        if op[0] == "==" {
+            second = true;
+        } else if second {
+            b.push(op.clone());
+        } else {
+            a.push(op.clone());
+        }
+    }
+    (a, b)
+}
+
+fn richer(a: &MDBFileInfo, b: &MDBFileInfo, got: &MDBFileInfo) -> bool {
+    // the union's record for a file in both inputs: same key and segments, and it carries verification /
+    // metadata whenever either input does (taken from an input that has them)
+    let hv = a.contains_verification() || b.contains_verification();
+    let he = a.contains_metadata_ext() || b.contains_metadata_ext();
+    got.metadata.file_hash == a.metadata.file_hash
+        && (got.segments == a.segments || got.segments == b.segments)
+        && got.contains_verification() == hv
+        && got.contains_metadata_ext() == he
+        && (!hv || got.verification == a.verification || got.verification == b.verification)
+        && (!hv || got.verification.len() == got.segments.len())
+        && (!he || got.metadata_ext == a.metadata_ext || got.metadata_ext == b.metadata_ext)
+}
+
+fn check_output(tag: &str, bytes: &[u8], want_files: &[MDBFileInfo], want_cas: &[MDBCASInfo], why: &mut Vec<String>) {
+    let mut rd = Cursor::new(bytes);
+    let info = match MDBShardInfo::load_from_reader(&mut rd) {
+        Ok(i) => i,
+        Err(_) => {
+            why.push(format!("{}-unloadable", tag));
+            return;
+        },
+    };
+    let files = info.read_all_file_info_sections(&mut rd).unwrap_or_default();
+    let cass = info.read_all_cas_blocks_full(&mut rd).unwrap_or_default();
+    if files.len() != want_files.len() || files.iter().zip(want_files).any(|(g, w)| g.metadata.file_hash != w.metadata.file_hash) {
+        why.push(format!("{}-file-keys", tag));
+    }
+    if cass != want_cas {
+        why.push(format!("{}-cas-records", tag));
+    }
+    // every record retrievable through the lookup tables, totals exact
+    for f in &files {
+        match info.get_file_reconstruction_info(&mut rd, &f.metadata.file_hash) {
+            Ok(Some(g)) if &g == f => {},
+            Err(_) if files.iter().filter(|x| x.metadata.file_hash[0] == f.metadata.file_hash[0]).count() >= 8 => {},
+            _ => why.push(format!("{}-lookup-file", tag)),
+        }
+    }
+    let nchunks: usize = cass.iter().map(|c| c.chunks.len()).sum();
+    if info.num_file_entries() != files.len() || info.num_cas_entries() != cass.len() || info.total_num_chunks() != nchunks {
+        why.push(format!("{}-table-counts", tag));
+    }
+    let stored: u64 = cass.iter().map(|c| c.metadata.num_bytes_in_cas as u64).sum();
+    let mat: u64 = files.iter().map(|f| f.segments.iter().map(|s| s.unpacked_segment_bytes as u64).sum::<u64>()).sum();
+    if info.stored_bytes() != stored || info.materialized_bytes() != mat || info.num_bytes() != bytes.len() as u64 {
+        why.push(format!("{}-totals", tag));
+    }
+    let hashes = info.read_all_truncated_hashes(&mut rd).unwrap_or_default();
+    if !hashes.windows(2).all(|w| w[0].0 <= w[1].0) {
+        why.push(format!("{}-chunk-table-unsorted", tag));
+    }
+}
+
+pub fn run_c10(toks: &[&str]) -> Lines {
+    let ops = split_ops(toks);
+    let (oa, ob) = split_ab(&ops);
+    let a = build(&oa);
+    let b = build(&ob);
+    let (ba, ia) = serialize(&a.mem);
+    let (bb, ib) = serialize(&b.mem);
+    let mut out: Lines = vec![];
+    let mut why: Vec<String> = vec![];
+    // expected key sets
+    let mut want_cas_u: Vec<MDBCASInfo> = a.cass.clone();
+    for c in &b.cass {
+        if !a.cass.iter().any(|x| x.metadata.cas_hash == c.metadata.cas_hash) {
+            want_cas_u.push(c.clone());
+        }
+    }
+    want_cas_u.sort_by_key(|c| c.metadata.cas_hash);
+    let mut want_files_u: Vec<MDBFileInfo> = a.files.clone();
+    for f in &b.files {
+        if !a.files.iter().any(|x| x.metadata.file_hash == f.metadata.file_hash) {
+            want_files_u.push(f.clone());
+        }
+    }
+    want_files_u.sort_by_key(|f| f.metadata.file_hash);
+    let want_cas_d: Vec<MDBCASInfo> = b.cass.iter().filter(|c| !a.cass.iter().any(|x| x.metadata.cas_hash == c.metadata.cas_hash)).cloned().collect();
+    let want_files_d: Vec<MDBFileInfo> =
+        b.files.iter().filter(|f| !a.files.iter().any(|x| x.metadata.file_hash == f.metadata.file_hash)).cloned().collect();
+
+    // on-disk union
+    let mut u = vec![];
+    let iu = shard_set_union(&ia, &mut Cursor::new(&ba), &ib, &mut Cursor::new(&bb), &mut u).unwrap();
+    out.push(("obs", format!("disk-union {}", describe_bytes(&u, &iu))));
+    check_output("disk-union", &u, &want_files_u, &want_cas_u, &mut why);
+    {
+        let mut rd = Cursor::new(&u);
+        let files = iu.read_all_file_info_sections(&mut rd).unwrap_or_default();
+        for g in &files {
+            let fa = a.files.iter().find(|x| x.metadata.file_hash == g.metadata.file_hash);
+            let fb = b.files.iter().find(|x| x.metadata.file_hash == g.metadata.file_hash);
+            let ok = match (fa, fb) {
+                (Some(x), Some(y)) => richer(x, y, g),
+                (Some(x), None) => x == g,
+                (None, Some(y)) => y == g,
+                _ => false,
+            };
+            if !ok {
+                why.push("disk-union-file-record".into());
+            }
+        }
+    }
+    // on-disk difference
+    let mut d = vec![];
+    let id = shard_set_difference(&ia, &mut Cursor::new(&ba), &ib, &mut Cursor::new(&bb), &mut d).unwrap();
+    out.push(("obs", format!("disk-diff {}", describe_bytes(&d, &id))));
+    check_output("disk-diff", &d, &want_files_d, &want_cas_d, &mut why);
+    {
+        let mut rd = Cursor::new(&d);
+        if id.read_all_file_info_sections(&mut rd).unwrap_or_default() != want_files_d {
+            why.push("disk-diff-file-records".into());
+        }
+    }
+    // in-memory
+    let mu = a.mem.union(&b.mem).unwrap();
+    let (bmu, imu) = serialize(&mu);
+    out.push(("obs", format!("mem-union {} acct={}", describe_bytes(&bmu, &imu), mu.shard_file_size())));
+    check_output("mem-union", &bmu, &want_files_u, &want_cas_u, &mut why);
+    if mu.shard_file_size() != bmu.len() as u64 {
+        why.push(format!("mem-union-size-accounting:{}!={}", mu.shard_file_size(), bmu.len()));
+    }
+    let md = a.mem.difference(&b.mem).unwrap();
+    let (bmd, imd) = serialize(&md);
+    out.push(("obs", format!("mem-diff {} acct={}", describe_bytes(&bmd, &imd), md.shard_file_size())));
+    check_output("mem-diff", &bmd, &want_files_d, &want_cas_d, &mut why);
+    if md.shard_file_size() != bmd.len() as u64 {
+        why.push(format!("mem-diff-size-accounting:{}!={}", md.shard_file_size(), bmd.len()));
+    }
+    out.push(("orc", if why.is_empty() { "ok".to_string() } else { format!("FAIL {}", why.join(",")) }));
+    out
+}
+
+// consolidation: shards separated by `==` are written to a directory in order, then consolidated with the threshold
+// given by a `target <n>` op; oracle only.
+pub fn run_c10c(toks: &[&str]) -> Lines {
+    use mdb_shard::MDBShardFile;
+    let ops = split_ops(toks);
+    let dir = tempfile::tempdir().unwrap();
+    let mut groups: Vec<Vec<Vec<&str>>> = vec![vec![]];
+    let mut target = 0u64;
+    for op in &ops {
+        if op[0] == "==" {
+            groups.push(vec![]);
+        } else if op[0] == "target" {
+            target = op[1].parse().unwrap();
+        } else {
+            groups.last_mut().unwrap().push(op.clone());
+        }
+    }
+    let mut all_files: Vec<MDBFileInfo> = vec![];
+    let mut all_cas: Vec<MDBCASInfo> = vec![];
+    let mut before: std::collections::HashSet<String> = Default::default();
+    for (i, g) in groups.iter().enumerate() {
+        let b = build(g);
+        if b.mem.is_empty() {
+            continue;
+        }
+        all_files.extend(b.files.iter().cloned());
+        all_cas.extend(b.cass.iter().cloned());
+        let p = b.mem.write_to_directory(dir.path()).unwrap();
+        before.insert(p.file_name().unwrap().to_string_lossy().to_string());
+        // distinct, increasing mtimes so that the grouping order is the write order
+        let t = std::time::SystemTime::UNIX_EPOCH + std::time::Duration::from_secs(1_700_000_000 + 10 * i as u64);
+        let f = std::fs::File::options().write(true).open(&p).unwrap();
+        f.set_modified(t).unwrap();
+    }
+    let mut out: Lines = vec![];
+    let mut why: Vec<String> = vec![];
+    let res = mdb_shard::session_directory::consolidate_shards_in_directory(dir.path(), target).unwrap();
+    let mut listing: Vec<String> = std::fs::read_dir(dir.path()).unwrap().map(|e| e.unwrap().file_name().to_string_lossy().to_string()).collect();
+    listing.sort();
+    out.push(("obs", format!("returned={} files-in-dir={} before={}", res.len(), listing.len(), before.len())));
+    let mut ret_names: std::collections::HashSet<String> = Default::default();
+    for s in &res {
+        let name = s.path.file_name().unwrap().to_string_lossy().to_string();
+        ret_names.insert(name.clone());
+        if !s.path.exists() {
+            why.push("returned-path-missing".into());
+            continue;
+        }
+        let content = std::fs::read(&s.path).unwrap();
+        let h = merklehash::compute_data_hash(&content);
+        if name != format!("{}.mdb", h.hex()) || s.shard_hash != h {
+            why.push("returned-name-is-not-content-hash".into());
+        }
+    }
+    for n in &listing {
+        if !n.ends_with(".mdb") {
+            why.push(format!("leftover-{}", n));
+        }
+    }
+    // every record retrievable before is retrievable from a returned shard
+    let returned: Vec<(MDBShardInfo, Vec<u8>)> = res
+        .iter()
+        .filter(|s| s.path.exists())
+        .map(|s| {
+            let c = std::fs::read(&s.path).unwrap();
+            (MDBShardInfo::load_from_reader(&mut Cursor::new(&c)).unwrap(), c)
+        })
+        .collect();
+    for f in &all_files {
+        let found = returned.iter().any(|(i, c)| matches!(i.get_file_reconstruction_info(&mut Cursor::new(c), &f.metadata.file_hash), Ok(Some(_))));
+        if !found {
+            why.push("file-record-lost".into());
+        }
+    }
+    let ret_cas: std::collections::HashSet<MerkleHash> = returned
+        .iter()
+        .flat_map(|(i, c)| i.read_all_cas_blocks_full(&mut Cursor::new(c)).unwrap_or_default().into_iter().map(|x| x.metadata.cas_hash))
+        .collect();
+    for c in &all_cas {
+        if !ret_cas.contains(&c.metadata.cas_hash) {
+            why.push("xorb-record-lost".into());
+        }
+    }
+    // deleted files: a shard that existed before and is gone must not be a returned one (checked above by existence)
+    for n in &before {
+        if !listing.contains(n) && ret_names.contains(n) {
+            why.push("deleted-a-returned-shard".into());
+        }
+    }
+    // nothing but returned shards and untouched inputs remains
+    for n in &listing {
+        if n.ends_with(".mdb") && !ret_names.contains(n) {
+            why.push(format!("unreturned-shard-left-behind-{}", &n[..8]));
+        }
+    }
+    out.push(("orc", if why.is_empty() { "ok".to_string() } else { format!("FAIL {}", why.join(",")) }));
+    out
+}
+
+// ---------------------------------------------------------------------------------------------
+// C18: keyed export.  ops: F.. / C.. build a shard; `exp <key> <flags 0..7> <valid_for secs>` exports it
+// (bit0 file info, bit1 cas table, bit2 chunk table); `qd` queries go through a ShardFileManager that has
+// only the exported shard registered, and through one that has the original.
+fn zero_times(bytes: &[u8], info: &MDBShardInfo) -> Vec<u8> {
+    let mut b = bytes.to_vec();
+    let fo = info.metadata.footer_offset as usize;
+    for i in (fo + 104)..(fo + 120) {
+        b[i] = 0;
+    }
+    b
+}
+
+pub fn run_c18(toks: &[&str]) -> Lines {
+    let ops = split_ops(toks);
+    let b = build(&ops);
+    let (bytes, info) = serialize(&b.mem);
+    let mut out: Lines = vec![];
+    let mut why: Vec<String> = vec![];
+    let zero = MerkleHash::default();
+    let rt = tokio::runtime::Builder::new_multi_thread().worker_threads(2).enable_all().build().unwrap();
+    let mut ne = 0;
+    for op in &ops {
+        if op[0] != "exp" {
+            continue;
+        }
+        let key = h32(op[1]);
+        let flags: u32 = op[2].parse().unwrap();
+        let valid: u64 = op[3].parse().unwrap();
+        let (fi, ct, kt) = (flags & 1 != 0, flags & 2 != 0, flags & 4 != 0);
+        let mut w = vec![];
+        let t0 = std::time::SystemTime::now().duration_since(std::time::UNIX_EPOCH).unwrap().as_secs();
+        let r = info.export_as_keyed_shard(&mut Cursor::new(&bytes), &mut w, key, std::time::Duration::from_secs(valid), fi, ct, kt);
+        let t1 = std::time::SystemTime::now().duration_since(std::time::UNIX_EPOCH).unwrap().as_secs();
+        if r.is_err() {
+            out.push(("obs", format!("exp{} export-error", ne)));
+            why.push(format!("exp{}-export-of-a-valid-shard-failed", ne));
+            ne += 1;
+            continue;
+        }
+        let ki = MDBShardInfo::load_from_reader(&mut Cursor::new(&w)).unwrap();
+        out.push(("obs", format!("exp{} {}", ne, describe_bytes(&zero_times(&w, &ki), &ki))));
+        // footer: key, timestamps
+        if ki.metadata.chunk_hash_hmac_key != key {
+            why.push(format!("exp{}-footer-key", ne));
+        }
+        let c = ki.metadata.shard_creation_timestamp;
+        if c < t0 || c > t1 || ki.metadata.shard_key_expiry != c + valid {
+            why.push(format!("exp{}-timestamps", ne));
+        }
+        // characterisation of the exported records
+        let mut rd = Cursor::new(&w);
+        let files = ki.read_all_file_info_sections(&mut rd).unwrap_or_default();
+        let cass = ki.read_all_cas_blocks_full(&mut rd).unwrap_or_default();
+        if fi && files != b.files {
+            why.push(format!("exp{}-files-not-kept", ne));
+        }
+        if !fi && !files.is_empty() {
+            why.push(format!("exp{}-files-not-dropped", ne));
+        }
+        if cass.len() != b.cass.len() {
+            why.push(format!("exp{}-xorb-count", ne));
+        } else {
+            for (g, o) in cass.iter().zip(&b.cass) {
+                if g.metadata != o.metadata || g.chunks.len() != o.chunks.len() {
+                    why.push(format!("exp{}-xorb-header", ne));
+                    continue;
+                }
+                for (gc, oc) in g.chunks.iter().zip(&o.chunks) {
+                    let want = if key == zero { oc.chunk_hash } else { oc.chunk_hash.hmac(key) };
+                    if gc.chunk_hash != want
+                        || gc.unpacked_segment_bytes != oc.unpacked_segment_bytes
+                        || gc.chunk_byte_range_start != oc.chunk_byte_range_start
+                    {
+                        why.push(format!("exp{}-chunk-not-keyed", ne));
+                    }
+                }
+            }
+        }
+        // tables present iff requested
+        let nchunks: usize = b.cass.iter().map(|c| c.chunks.len()).sum();
+        if ki.num_file_entries() != if fi { b.files.len() } else { 0 }
+            || ki.num_cas_entries() != if ct { b.cass.len() } else { 0 }
+            || ki.total_num_chunks() != if kt { nchunks } else { 0 }
+        {
+            why.push(format!("exp{}-table-presence", ne));
+        }
+        // no raw chunk hash leaks into a keyed export (chunk lists and chunk table)
+        if key != zero {
+            let a = ki.metadata.cas_info_offset as usize;
+            let e = ki.metadata.footer_offset as usize;
+            let region = &w[a..e];
+            for c in &b.cass {
+                for ch in &c.chunks {
+                    let raw = ch.chunk_hash.as_bytes();
+                    if region.chunks(48).any(|rec| rec.len() == 48 && &rec[..32] == raw && rec[..32] != c.metadata.cas_hash.as_bytes()[..]) {
+                        // a 48-byte record starting with the raw hash that is not a xorb header
+                        if !b.cass.iter().any(|x| x.metadata.cas_hash == ch.chunk_hash) {
+                            why.push(format!("exp{}-raw-chunk-hash-leaked", ne));
+                        }
+                    }
+                }
+            }
+        }
+        // dedup equivalence through the manager: original vs exported
+        let dir_o = tempfile::tempdir().unwrap();
+        let dir_k = tempfile::tempdir().unwrap();
+        let name_o = format!("{}.mdb", merklehash::compute_data_hash(&bytes).hex());
+        let name_k = format!("{}.mdb", merklehash::compute_data_hash(&w).hex());
+        std::fs::write(dir_o.path().join(&name_o), &bytes).unwrap();
+        std::fs::write(dir_k.path().join(&name_k), &w).unwrap();
+        let mut nq = 0;
+        rt.block_on(async {
+            let mo = ShardFileManager::new_in_session_directory(dir_o.path()).await.unwrap();
+            mo.refresh_shard_dir().await.unwrap();
+            let mk = ShardFileManager::new_in_session_directory(dir_k.path()).await.unwrap();
+            mk.refresh_shard_dir().await.unwrap();
+            let loaded = mk.registered_shard_list().await.unwrap().len() == 1;
+            if valid >= 60 && !loaded {
+                why.push(format!("exp{}-exported-shard-not-loaded", ne));
+            }
+            for q in &ops {
+                if q[0] != "qd" || !loaded {
+                    continue;
+                }
+                let qs = hashes(q[1]);
+                let ao = mo.chunk_hash_dedup_query(&qs).await.unwrap();
+                let ak = mk.chunk_hash_dedup_query(&qs).await.unwrap();
+                out.push(("obs", format!("exp{} qd{} orig={} keyed={}", ne, nq, dump_seg(&ao).split(' ').next().unwrap(), dump_seg(&ak).split(' ').next().unwrap())));
+                if let Err(e) = truthful(&b.cass, &zero, &qs, &ak) {
+                    why.push(format!("exp{}-qd{}-keyed-untruthful:{}", ne, nq, e));
+                }
+                // same number of matched chunks unless several candidates exist (then both must still be truthful)
+                let no = ao.as_ref().map(|x| x.0).unwrap_or(0);
+                let nk = ak.as_ref().map(|x| x.0).unwrap_or(0);
+                let first_dups = qs.first().map(|q0| b.cass.iter().flat_map(|c| c.chunks.iter()).filter(|c| c.chunk_hash == *q0).count()).unwrap_or(0);
+                let prefix_sharers = qs.first().map(|q0| b.cass.iter().flat_map(|c| c.chunks.iter()).filter(|c| c.chunk_hash[0] == q0[0]).count()).unwrap_or(0);
+                if no != nk && first_dups <= 1 && prefix_sharers <= 1 {
+                    why.push(format!("exp{}-qd{}-answers-differ:{}vs{}", ne, nq, no, nk));
+                }
+                nq += 1;
+            }
+        });
+        ne += 1;
+    }
+    // expiry arithmetic: `expire <created> <valid_for> <now-offset>` writes a keyed shard whose footer times are set
+    // explicitly and checks load_all_valid / clean_expired_shards against the stated rule
+    for op in &ops {
+        if op[0] != "expire" {
+            continue;
+        }
+        let expiry: u64 = op[1].parse().unwrap(); // absolute, relative to now: now + x - 100000
+        let grace: u64 = op[2].parse().unwrap();
+        let now = std::time::SystemTime::now().duration_since(std::time::UNIX_EPOCH).unwrap().as_secs();
+        let dir = tempfile::tempdir().unwrap();
+        let mut w = vec![];
+        info.export_as_keyed_shard(&mut Cursor::new(&bytes), &mut w, h32(op[3]), std::time::Duration::from_secs(0), true, true, true).unwrap();
+        let ki = MDBShardInfo::load_from_reader(&mut Cursor::new(&w)).unwrap();
+        let mut footer = ki.metadata.clone();
+        let abs_expiry = if expiry == u64::MAX { u64::MAX } else { (now + expiry).saturating_sub(100000) };
+        footer.shard_key_expiry = abs_expiry;
+        let mut fb = vec![];
+        footer.serialize(&mut fb).unwrap();
+        let fo = ki.metadata.footer_offset as usize;
+        w.truncate(fo);
+        w.extend_from_slice(&fb);
+        let name = format!("{}.mdb", merklehash::compute_data_hash(&w).hex());
+        let p = dir.path().join(&name);
+        std::fs::write(&p, &w).unwrap();
+        let loaded = mdb_shard::MDBShardFile::load_all_valid(dir.path()).unwrap().len();
+        mdb_shard::MDBShardFile::clean_expired_shards(dir.path(), grace).unwrap();
+        let still = p.exists();
+        let now2 = std::time::SystemTime::now().duration_since(std::time::UNIX_EPOCH).unwrap().as_secs();
+        out.push(("obs", format!("expire loaded={} deleted={}", loaded, !still)));
+        // rule: loaded iff now <= expiry ; deleted iff expiry + grace <= now (saturating); allow the clock to tick between now and now2
+        let must_load = now2 <= abs_expiry;
+        let must_not_load = now > abs_expiry;
+        if (must_load && loaded != 1) || (must_not_load && loaded != 0) {
+            why.push(format!("expire-load-rule:expiry={} now={} loaded={}", abs_expiry, now, loaded));
+        }
+        let must_delete = abs_expiry.saturating_add(grace) <= now;
+        let must_keep = abs_expiry.saturating_add(grace) > now2;
+        if (must_delete && still) || (must_keep && !still) {
+            why.push(format!("expire-delete-rule:expiry={} grace={} now={} still={}", abs_expiry, grace, now, still));
+        }
+    }
+    out.push(("orc", if why.is_empty() { "ok".to_string() } else { format!("FAIL {}", why.join(",")) }));
+    out
+}
